@@ -109,7 +109,7 @@ def validate(records, shards=8):
     return res, mism, len(res.tagged("VALIDATED")), len(res.tagged("SKIPPED"))
 
 
-RISK_ORDER = ["fail_word_incomplete", "fail_not_a_command_candidate", "any_word_at_command_point", "command_candidate_beside_other_command",
+RISK_ORDER = ["any_word_beside_unfinished_word", "fail_word_incomplete", "fail_not_a_command_candidate", "any_word_at_command_point", "command_candidate_beside_other_command",
               "word_value_with_longer_sibling",
               "command_candidate_with_blank", "fail_foreign", "word_value", "command_candidate", "any_word", "literal", "after_fail"]
 
